@@ -56,6 +56,11 @@ AuxHashMap<A>* AuxHashMap<A>::deserialize(const void* bytes, size_t len,
   } else { // updatable
     lgArrInts = lgAuxArrInts;
   }
+  // at most k exceptions, and the array is at most doubled when 3/4 full
+  if (lgArrInts > lgConfigK + 1) {
+    throw std::invalid_argument("Possible corruption: AuxHashMap array size 2^" + std::to_string(lgArrInts)
+                                + " for lgConfigK " + std::to_string(lgConfigK));
+  }
   
   const uint32_t configKmask = (1 << lgConfigK) - 1;
 
@@ -104,6 +109,11 @@ AuxHashMap<A>* AuxHashMap<A>::deserialize(std::istream& is, uint8_t lgConfigK,
     lgArrInts = HllUtil<A>::computeLgArrInts(HLL, auxCount, lgConfigK);
   } else { // updatable
     lgArrInts = lgAuxArrInts;
+  }
+  // at most k exceptions, and the array is at most doubled when 3/4 full
+  if (lgArrInts > lgConfigK + 1) {
+    throw std::invalid_argument("Possible corruption: AuxHashMap array size 2^" + std::to_string(lgArrInts)
+                                + " for lgConfigK " + std::to_string(lgConfigK));
   }
 
   AuxHashMap<A>* auxHashMap = new (ahmAlloc(allocator).allocate(1)) AuxHashMap<A>(lgArrInts, lgConfigK, allocator);
